@@ -301,7 +301,13 @@ def c03(run):
     inv1 = 'NoCleanEOF RoundTrip CheckFirstReleasesNothingUnverified StreamingHoldsBack IdentityOk GenCase'
     nset1 = run.q([8, 40, 8151, 8152, 8153, 8192], [8, 9, 40, 200, 8149, 8150, 8151, 8152, 8153, 8154, 8192, 8193, 16342, 16343, 16344])
     g1 = run.mc('MCCfbMdc', cfb_cfg(18, 22, 8192, nset1, both, 1073741824, False, run.q(997, 211), invs=inv1, rel=()), name='real_cfb', timeout=1500)
-    cases = [dict(c, layer='v2') for c in g2.cases] + [dict(c, layer='v1') for c in g1.cases]
+    # CheckFirst with the configured cap at, just below and just above the length of the data (RFC-conformant messages of exactly the cap
+    # must be verified before anything is released; longer ones refused)
+    capped = []
+    for mm in (29, 30, 31, 121, 122, 123):
+        gc = run.mc('MCCfbMdc', cfb_cfg(18, 22, 8192, [8, 100], ['checkfirst'], mm, False, 13, invs=inv1, rel=()), name=f'cap_cfb_{mm}', timeout=600, count=False)
+        capped += gc.cases
+    cases = [dict(c, layer='v2') for c in g2.cases] + [dict(c, layer='v1') for c in g1.cases] + [dict(c, layer='v1') for c in capped]
     if run.replay and run.replay.get('source_case'):
         cases = [run.replay['source_case']]
     for i, c in enumerate(cases):
